@@ -3,7 +3,7 @@ import glob, os, re
 import vf, spec, gen
 
 ID = 'C03'
-FLAVORS = ['default']
+FLAVORS = ['default', 'strict']
 RULE = ('MATCH lines: pattern (<= 4 keywords from the vocabulary ABc, Xy, ABCd, Q, each optional/numeric or not, +-?; plus every pattern literal shipped in '
         'libscpi/test and examples) x header assembled from the pattern\'s own spellings (short/long, either case, digits, optional keywords present/absent) and near misses; '
         'numbers array of 4, 1 and NULL. Non-trivial: accepted pairs and rejected pairs whose header shares the first keyword; distinct = distinct (pattern, header, n).')
@@ -158,6 +158,8 @@ def streams(tier, rng):
             return c
         return c if h[:2].upper().lstrip(':') == p[:2].upper().lstrip('[:') else None
     yield {'name': 'match', 'coqcheck': True, 'cases': cases, 'oracle': oracle, 'nontrivial': nontrivial}
+    # the same matcher in a strict ISO C build, where the library compares with its own case-insensitive routine instead of strncasecmp
+    yield {'name': 'match-strict-iso', 'flavor': 'strict', 'cases': cases[:: (3 if tier == 'quick' else 2)], 'oracle': oracle, 'nontrivial': nontrivial}
     # the same question asked through the parser: a one-entry table and the header as a message (findCommandHeader + matchCommand)
     dcases, dinfo = [], {}
     for p in pats[:: (3 if tier == 'quick' else 1)]:
